@@ -151,7 +151,7 @@ func history(c *harness.Ctx, id string, r *rand.Rand) {
 		if err != nil {
 			panic(err)
 		}
-		return s
+		return trackedSub{s, e}
 	}
 	env, err := ctlsim.New(opts)
 	if err != nil {
@@ -198,7 +198,7 @@ func history(c *harness.Ctx, id string, r *rand.Rand) {
 		}
 		return want
 	}
-	checkSubs := func(stage string, epochs []uint64, now uint64) {
+	checkSubs := func(stage string, epochs []uint64, now uint64, fromBatch int) {
 		want := map[[2]uint64]bool{}
 		for _, e := range epochs {
 			for k, v := range expectSubs(e, now) {
@@ -209,7 +209,10 @@ func history(c *harness.Ctx, id string, r *rand.Rand) {
 			subs.mu.Lock()
 			defer subs.mu.Unlock()
 			got := map[[2]uint64]bool{}
-			for _, b := range subs.subs {
+			for bi, b := range subs.subs {
+				if bi < fromBatch {
+					continue
+				}
 				for _, s := range b {
 					got[[2]uint64{uint64(s.Slot), uint64(s.CommitteeIndex)}] = true
 				}
@@ -224,7 +227,10 @@ func history(c *harness.Ctx, id string, r *rand.Rand) {
 		subs.mu.Lock()
 		defer subs.mu.Unlock()
 		got := map[[2]uint64]*apiv1.BeaconCommitteeSubscription{}
-		for _, b := range subs.subs {
+		for bi, b := range subs.subs {
+			if bi < fromBatch {
+				continue
+			}
 			for _, s := range b {
 				got[[2]uint64{uint64(s.Slot), uint64(s.CommitteeIndex)}] = s
 			}
@@ -263,15 +269,46 @@ func history(c *harness.Ctx, id string, r *rand.Rand) {
 			c.Count("subscriptions_checked", 1)
 		}
 	}
-	checkSubs("start", []uint64{epoch, epoch + 1}, start)
+	checkSubs("start", []uint64{epoch, epoch + 1}, start, 0)
 
 	// ---- attest each remaining duty slot of the epoch and the next; aggregation jobs must follow ----
 	last := (epoch+2)*spe - 1
+	reorgSlot := (epoch+1)*spe + 1 + uint64(r.Intn(int(spe)-2))
+	if r.Intn(3) == 0 {
+		reorgSlot = 0 // no reorg in this history
+	}
 	for s := start + 1; s <= last; s++ {
 		env.Clock.SetSlot(phase0.Slot(s))
 		if s%spe == 0 {
 			env.Sched.RunSync("Epoch ticker")
 			env.Settle()
+		}
+		// a reorg in the second epoch: first an event that only records the roots, later one whose previous
+		// dependent root differs, delivered at a duty slot before that slot's attestation has run
+		if s == (epoch+1)*spe {
+			env.HeadEvent(s, 1, 2)
+		}
+		if s == reorgSlot {
+			fresh := mk(epoch + 1)
+			fresh[0].Slot = s // the slot that is running keeps a duty
+			fresh[0].Size = 8 // ... of a committee in which everybody aggregates
+			for i := range fresh {
+				if i > 0 && fresh[i].Slot == s && fresh[i].Committee == fresh[0].Committee {
+					fresh[i].Size = 8
+				}
+			}
+			script[epoch+1] = fresh
+			env.Duties.Attester[epoch+1] = nil
+			for _, d := range fresh {
+				env.Duties.Attester[epoch+1] = append(env.Duties.Attester[epoch+1], &apiv1.AttesterDuty{Slot: phase0.Slot(d.Slot), ValidatorIndex: phase0.ValidatorIndex(d.V), CommitteeIndex: phase0.CommitteeIndex(d.Committee),
+					CommitteeLength: d.Size, CommitteesAtSlot: 3, ValidatorCommitteeIndex: d.Pos})
+			}
+			subs.mu.Lock()
+			from := len(subs.subs)
+			subs.mu.Unlock()
+			env.HeadEvent(s, 101, 2)
+			checkSubs("reorg", []uint64{epoch + 1}, s, from)
+			c.Count("reorgs_with_changed_duties", 1)
 		}
 		// run the jobs due in this slot up to the attestation (slot start + 4 s), then look at the aggregation jobs
 		env.RunDueJobs(env.Clock.StartOfSlot(phase0.Slot(s)).Add(ctlsim.AttDelay + time.Second))
@@ -291,7 +328,16 @@ func history(c *harness.Ctx, id string, r *rand.Rand) {
 				committees[d.Committee] = nil
 			}
 		}
-		if hasDuty {
+		attestedNow := false
+		for _, ev := range env.Recorded() {
+			if ev.Kind == "attest" && ev.Slot == s {
+				attestedNow = true
+			}
+		}
+		if hasDuty && !attestedNow {
+			c.Count("duty_slots_not_attested_(current_slot_at_refresh)", 1)
+		}
+		if hasDuty && attestedNow {
 			nAgg := 0
 			for k, ad := range committees {
 				name := fmt.Sprintf("Beacon block attestation aggregation for slot %d committee %d", s, k)
@@ -352,9 +398,24 @@ func history(c *harness.Ctx, id string, r *rand.Rand) {
 		}
 		// "Prepare for epoch" ran mid-epoch: the following epoch gets subscribed from here on
 		if s%spe == spe/2+1 && s/spe == epoch+1 {
-			checkSubs("prepare", []uint64{epoch + 2}, s)
+			checkSubs("prepare", []uint64{epoch + 2}, s, 0)
 		}
 	}
+}
+
+// trackedSub lets the driver's quiescence detection see a subscription in progress.
+type trackedSub struct {
+	real beaconcommitteesubscriber.Service
+	e    *ctlsim.Env
+}
+
+func (t trackedSub) Subscribe(ctx context.Context, epoch phase0.Epoch, accounts map[phase0.ValidatorIndex]e2wtypes.Account) (map[phase0.Slot]map[phase0.CommitteeIndex]*beaconcommitteesubscriber.Subscription, error) {
+	t.e.Busy(1)
+	defer func() {
+		// the controller stores the result right after we return
+		go func() { time.Sleep(2 * time.Millisecond); t.e.Busy(-1) }()
+	}()
+	return t.real.Subscribe(ctx, epoch, accounts)
 }
 
 type acctsProv struct{ e *ctlsim.Env }
